@@ -55,7 +55,7 @@ CHECKS = {
    note='The statement asks for length 8 exhaustively (11^8 texts): out of reach; the bound reached is in the evidence. Where the statement is ambiguous (cursor on a non-bracket token directly after a bracket) both readings are accepted.', ref='5 C20'),
 
  'C14': dict(cat='model_checking', tech='replay of TLC-generated behaviours of Store.tla (pool of objects with identity, library specified in Prims.tla) on the real VM',
-   text='Store.tla is a state machine over a heap of objects with identity and a pool of four named values; each step applies one list/vector procedure of the statement (specified in Prims.tla from R7RS) to arguments drawn from the pool, index ranges -1..len+1 and 100, and keys. TLC enumerates every operation with every argument combination on five initial pools (exhaustive for one step; frame condition and type invariant checked on the spec) and simulates sequences of length 12 (one family of operations and one candidate drawn per step, copies and mutators more often; the evidence reports the mean number of drawn operations, the procedures drawn and the behaviours with a mutation after a copy, and a degenerate simulation is a tool error); each behaviour carries the required outcome (value / error / unspecified), the rendering of all pool objects and the identity matrix (which pool objects are the same object or a tail of which) after every step, and the harness replays it on the real VM comparing result, all four objects and the identity matrix (read from the heap pointers of the VM) after each step.',
+   text='Store.tla is a state machine over a heap of objects with identity and a pool of four named values; each step applies one list/vector procedure of the statement (specified in Prims.tla from R7RS) to arguments drawn from the pool, index ranges -1..len+1 and 100, and keys. TLC enumerates every operation with every argument combination on six initial pools (exhaustive for one step; frame condition and type invariant checked on the spec) and simulates sequences of length 12 (one family of operations and one candidate drawn per step, copies and mutators more often; the evidence reports the mean number of drawn operations, the procedures drawn and the behaviours with a mutation after a copy, and a degenerate simulation is a tool error); each behaviour carries the required outcome (value / error / unspecified), the rendering of all pool objects and the identity matrix (which pool objects are the same object or a tail of which) after every step, and the harness replays it on the real VM comparing result, all four objects and the identity matrix (read from the heap pointers of the VM) after each step.',
    note='Identity is observed through mutation visibility and through the heap pointers of the pool slots (verif accessors), never through eq? on pairs: the pinned suite fixes (eq? (cons a b) (cons a b)) => #t. Mutations that would create cycles are not generated. Exhaustive for single operations only; sequences are sampled (3000 quick / 150000 thorough).', ref='5 C14'),
  'C15': dict(cat='model_checking', tech='replay of TLC-generated behaviours of Strings.tla (strings as mutable vectors of Unicode scalar values, character table CharTable.tla) on the real VM',
    text='Strings.tla: pool of strings mixing 1-4 byte characters (and the lists/vectors the conversions produce); each step applies one string or character procedure of the statement with start/end/index from -1..len+1, characters from a 17-character palette of every UTF-8 width, integers across the surrogate gap and above U+10FFFF, and wrong-typed arguments. TLC enumerates all single operations on three pools (15.8k behaviours; invariants: only scalar values in strings, mutators keep lengths, frame condition) and simulates sequences of length 10; the harness replays them comparing result and every pool object after each step.',
